@@ -41,6 +41,9 @@ type icPair struct {
 var icPairs = map[string]*icPair{
 	"p1": {name: "p1", from: fix.FullID(fix.ChainA, fix.Svc1), to: fix.FullID(fix.ChainB, fix.Svc2), srcChain: fix.ChainA, dstChain: fix.ChainB},
 	"p2": {name: "p2", from: fix.FullID(fix.ChainA, fix.Svc3), to: fix.FullID(fix.ChainB, fix.Svc2), srcChain: fix.ChainA, dstChain: fix.ChainB, blocked: true},
+	// a service sending to itself: source and destination records are one and the same
+	"p4": {name: "p4", from: fix.FullID(fix.ChainA, fix.Svc1), to: fix.FullID(fix.ChainA, fix.Svc1), srcChain: fix.ChainA, dstChain: fix.ChainA},
+	"p5": {name: "p5", from: fix.FullID(fix.ChainA, "0xB2dD6977169c5067d3729E3deB9a82c3e7502BF4"), to: fix.FullID(fix.ChainB, fix.Svc2), srcChain: fix.ChainA, dstChain: fix.ChainB},
 	"p3": {name: "p3", from: fix.FullID(fix.ChainB, fix.Svc2), to: fix.FullID(fix.ChainA, fix.Svc1), srcChain: fix.ChainB, dstChain: fix.ChainA, srcKey: 1},
 }
 
